@@ -49,8 +49,8 @@ T8 = {
     "TPLStable": (None, {"hurst": lambda d: (0.0, 1.0, False, False), "alpha": lambda d: (0.0, 2.0, False, True),
                          "len_low": lambda d: (0.0, INF, True, False)}),
 }
-# Cubic: the code accepts every dimension without warning while the literature gives validity in R^3;
-# recorded below as an observation (dim 4 is only reachable as space + time).
+# Cubic: valid in R^3 (Chiles & Delfiner); the pinned tree accepted every dimension without warning -- first excluded
+# here as an "observation", which was wrong: it is finding F35 (repaired in /repo: Cubic.check_dim).
 
 
 def _subset(b, lit):
@@ -80,13 +80,9 @@ def validity(ctx, cls, dim, latlon, temporal):
         ctx.ensure("latlon-effective-dimension", mod.dim == 3 + int(temporal))
     dim = mod.dim
     valid_dim = maxdim is None or dim <= maxdim
-    ctx.ensure("accepted-without-warning=>valid-dimension[as-constructed]", warned or valid_dim or (cls == "Cubic" and dim == 4))
-    if cls == "Cubic" and dim == 4:
-        # observation, not claimed: Cubic accepts dim 4 (space + time) without a warning
-        ctx.ensure("check_dim-consistent-with-warning", mod.check_dim(dim) == (not warned))
-    else:
-        ctx.ensure("accepted-without-warning=>valid-dimension", (not mod.check_dim(dim)) or valid_dim)
-        ctx.ensure("check_dim-consistent-with-warning", mod.check_dim(dim) == (not warned))
+    ctx.ensure("accepted-without-warning=>valid-dimension[as-constructed]", warned or valid_dim)
+    ctx.ensure("accepted-without-warning=>valid-dimension", (not mod.check_dim(dim)) or valid_dim)
+    ctx.ensure("check_dim-consistent-with-warning", mod.check_dim(dim) == (not warned))
     bounds = mod.default_opt_arg_bounds()
     ctx.ensure("same-optional-arguments", set(bounds) == set(rows))
     for k, b in bounds.items():
